@@ -139,7 +139,9 @@ func c12History(r *Result, env *engineEnv, rng randLike, n int) {
 	ctx := context.Background()
 	ps := genSmallSpec(rng, fmt.Sprintf("h%d.", n))
 	// make the plan slow enough that "Start while running" really is while running
-	ps.eachAction(func(a *ActSpec, _ bool) { a.Script = []Outcome{{Resp: "good", Err: "none", DelayUs: 300 + rng.IntN(600)}} })
+	ps.eachAction(func(a *ActSpec, _ bool) {
+		a.Script = []Outcome{{Resp: "good", Err: "none", DelayUs: 300 + rng.IntN(600)}}
+	})
 	var id uuid.UUID
 	known := false
 	started := false
